@@ -4,7 +4,7 @@ d=$1
 t=$(mktemp -d /tmp/refrepo_XXXXXX)
 mkdir -p $t/r && cd /repo && rsync -a --exclude __pycache__ src scenarios scripts plot_manuscript_figures.py tests data $t/r/
 cd $t/r && git init -q . 2>/dev/null
-if ! git apply --check $d/patch.diff 2>/tmp/applyerr_$$; then echo "$d: APPLY-FAIL $(head -1 /tmp/applyerr_$$)"; rm -rf $t; exit; fi
+if ! git apply --check $d/patch.diff 2>/dev/null; then echo "$d: APPLY-FAIL"; rm -rf $t; exit; fi
 git apply $d/patch.diff
 ev=$(mktemp -d /tmp/ref_ev_XXXXXX)
 one() { p=$1; out=$(cd /verif && ALLFEDSA_REPO=$2 ALLFEDSA_EVIDENCE_DIR=$3 /venv/bin/python -m allfedsa.cli $p 2>&1); rc=$?
